@@ -318,7 +318,148 @@ end Bycycle.Slots
        o['lastCross'], o['scanDecay'], o['scanRise'], o['trimPF'], o['trimPL'], o['trimTF'], o['trimTL'], rows_lean)
     return 'SlotsCyclepoints.lean', lean
 
-GROUPS = [detect_slots, cyclepoints_slots]
+
+# ------------------------------------------------------------------ shape renaming (C04, C09)
+def _camel(col, strip=''):
+    col = col[len(strip):] if strip and col.startswith(strip) else col
+    parts = col.split('_')
+    return parts[0] + ''.join(x.capitalize() for x in parts[1:])
+
+SHAPE_FIELDS = ['period', 'time_peak', 'time_trough', 'volt_peak', 'volt_trough', 'time_decay', 'time_rise', 'volt_decay', 'volt_rise',
+                'volt_amp', 'time_rdsym', 'time_ptsym', 'band_amp']
+F_FIELDS = {'time_rdsym', 'time_ptsym', 'band_amp'}
+INT_FIELDS = {'period', 'time_peak', 'time_trough', 'time_decay', 'time_rise'}
+PEAK_SAMPLES = ['sample_peak', 'sample_last_zerox_decay', 'sample_zerox_decay', 'sample_zerox_rise', 'sample_last_trough', 'sample_next_trough']
+TROUGH_SAMPLES = ['sample_trough', 'sample_last_zerox_rise', 'sample_zerox_rise', 'sample_zerox_decay', 'sample_last_peak', 'sample_next_peak']
+
+def shape_slots(S):
+    fn = lambda: _func('bycycle/utils/dataframes.py', 'rename_extrema_df')
+    def dict_named(name):
+        def th():
+            for n in ast.walk(fn()):
+                if isinstance(n, ast.Assign) and ast.unparse(n.targets[0]) == name and isinstance(n.value, ast.Dict):
+                    return ast.literal_eval(n.value)
+            return None
+        return th
+    pin_feat = {'time_peak': 'time_trough', 'time_trough': 'time_peak', 'volt_peak': 'volt_trough', 'volt_trough': 'volt_peak',
+                'time_rise': 'time_decay', 'time_decay': 'time_rise', 'volt_rise': 'volt_decay', 'volt_decay': 'volt_rise'}
+    pin_samp = {'sample_peak': 'sample_trough', 'sample_zerox_decay': 'sample_zerox_rise', 'sample_zerox_rise': 'sample_zerox_decay',
+                'sample_last_zerox_decay': 'sample_last_zerox_rise', 'sample_last_trough': 'sample_last_peak', 'sample_next_trough': 'sample_next_peak'}
+    def checked_feat():
+        d = dict_named('features_rename_dict')()
+        if d is None: return None
+        new_names = [d.get(c, c) for c in SHAPE_FIELDS]
+        if sorted(new_names) != sorted(SHAPE_FIELDS):
+            raise ValueError('feature renaming is not a permutation of the shape columns')
+        return d
+    def checked_samp():
+        d = dict_named('samples_rename_dict')()
+        if d is None: return None
+        new_names = [d.get(c, c) for c in PEAK_SAMPLES]
+        if sorted(new_names) != sorted(TROUGH_SAMPLES):
+            raise ValueError('sample renaming does not produce the trough-centred sample columns')
+        return d
+    feat = S.get('rename.features', pin_feat, checked_feat)
+    samp = S.get('rename.samples', pin_samp, checked_samp)
+    def flips():
+        out = []
+        for n in ast.walk(fn()):
+            if isinstance(n, ast.Assign) and isinstance(n.targets[0], ast.Subscript) and ast.unparse(n.targets[0].value) == 'df_features' \
+                    and isinstance(n.targets[0].slice, ast.Constant):
+                col = n.targets[0].slice.value
+                src = ast.unparse(n.value)
+                if src == "-df_features['%s']" % col:
+                    out.append((col, 'neg'))
+                elif src == "1 - df_features['%s']" % col:
+                    out.append((col, 'oneMinus'))
+                else:
+                    raise ValueError('flip outside grammar: ' + src)
+        return sorted(out) or None
+    pin_flips = sorted([('volt_peak', 'neg'), ('volt_trough', 'neg'), ('time_rdsym', 'oneMinus'), ('time_ptsym', 'oneMinus')])
+    fl = S.get('rename.flips', pin_flips, flips)
+    # new column `new` takes the value of old column `old` where feat[old] = new
+    inv = {feat.get(c, c): c for c in SHAPE_FIELDS}
+    ren = ', '.join('%s := r.%s' % (_camel(new), _camel(inv[new])) for new in SHAPE_FIELDS if inv[new] != new)
+    def flip_expr(col, op):
+        f = _camel(col)
+        if col in F_FIELDS:
+            return '%s := F.%s r.%s' % (f, 'neg' if op == 'neg' else 'oneMinus', f)
+        return '%s := %s' % (f, '-r.%s' % f if op == 'neg' else '1 - r.%s' % f)
+    flp = ', '.join(flip_expr(c, o) for c, o in fl)
+    sinv = {samp.get(c, c): c for c in PEAK_SAMPLES}
+    sren = ', '.join('%s := r.%s' % (_camel(new, 'sample_'), _camel(sinv[new], 'sample_')) for new in TROUGH_SAMPLES)
+    lean = """/- GENERATED by harness/slots.py from /repo (bycycle/utils/dataframes.py rename_extrema_df). Do not edit. -/
+import BycycleModel.ShapeTypes
+namespace Bycycle.Slots
+
+/-- `df_features.rename(columns=features_rename_dict)`: each new column takes the old column's value. -/
+def renameShape (r : ShapeRow) : ShapeRow := { r with %s }
+/-- the sign / `1 - x` reversals applied after the renaming. -/
+def flipShape (r : ShapeRow) : ShapeRow := { r with %s }
+/-- `df_features.rename(columns=samples_rename_dict)`. -/
+def renameSamples (r : SampleRow) : TSampleRow := { %s }
+
+end Bycycle.Slots
+""" % (ren, flp, sren)
+    return 'SlotsShape.lean', lean
+
+
+# ------------------------------------------------------------------ burst features (C05, C09, C16)
+def burstfeat_slots(S):
+    bp = 'bycycle/features/burst.py'
+    def offsets(branch_is_peak, which):
+        def th():
+            fn = _func(bp, 'compute_amp_consistency')
+            for n in ast.walk(fn):
+                if isinstance(n, ast.If) and ast.unparse(n.test) == "'sample_peak' in df_shape_features.columns":
+                    body = n.body if branch_is_peak else n.orelse
+                    for st in body:
+                        if isinstance(st, ast.Assign) and ast.unparse(st.targets[0]) == 'consist_' + which:
+                            src = ast.unparse(st.value)
+                            m = _re.fullmatch(r'np\.min\(\[rises\[(cyc(?: [+-] \d+)?)\], decays\[(cyc(?: [+-] \d+)?)\]\]\) / '
+                                              r'np\.max\(\[rises\[(cyc(?: [+-] \d+)?)\], decays\[(cyc(?: [+-] \d+)?)\]\]\)', src)
+                            if not m or m.group(1) != m.group(3) or m.group(2) != m.group(4):
+                                raise ValueError('expression outside grammar: ' + src)
+                            off = lambda e: int(e.replace('cyc', '').replace(' ', '') or 0)
+                            return (off(m.group(1)), off(m.group(2)))
+            return None
+        return th
+    pl = S.get('amp_consistency.peak.last', (0, -1), offsets(True, 'last'))
+    pn = S.get('amp_consistency.peak.next', (1, 0), offsets(True, 'next'))
+    tl = S.get('amp_consistency.trough.last', (-1, 0), offsets(False, 'last'))
+    tn = S.get('amp_consistency.trough.next', (0, 1), offsets(False, 'next'))
+    def mono_cmp(name):
+        def th():
+            fn = _func(bp, 'compute_monotonicity')
+            for n in ast.walk(fn):
+                if isinstance(n, ast.Assign) and ast.unparse(n.targets[0]) == name:
+                    m = _re.fullmatch(r'np\.mean\(np\.diff\((\w+)\) (<|>|<=|>=) 0\)', ast.unparse(n.value))
+                    if m and m.group(1) == name.replace('_mono', '_period'):
+                        return OPTXT[m.group(2)]
+                    raise ValueError('expression outside grammar')
+            return None
+        return th
+    mr = S.get('monotonicity.rise_cmp', '.gt', mono_cmp('rise_mono'))
+    md = S.get('monotonicity.decay_cmp', '.lt', mono_cmp('decay_mono'))
+    lean = """/- GENERATED by harness/slots.py from /repo (bycycle/features/burst.py). Do not edit. -/
+import BycycleModel.Basic
+namespace Bycycle.Slots
+
+/-- (offset of `rises`, offset of `decays`) relative to `cyc` in `consist_last` / `consist_next`,
+peak-centred branch and trough-centred branch of compute_amp_consistency. -/
+def acPeakLast : Int × Int := (%d, %d)
+def acPeakNext : Int × Int := (%d, %d)
+def acTroughLast : Int × Int := (%d, %d)
+def acTroughNext : Int × Int := (%d, %d)
+/-- `np.diff(rise_period) > 0`, `np.diff(decay_period) < 0`: comparator applied as `step cmp 0`. -/
+def monoRiseCmp : Cmp := %s
+def monoDecayCmp : Cmp := %s
+
+end Bycycle.Slots
+""" % (pl + pn + tl + tn + (mr, md))
+    return 'SlotsBurstFeatures.lean', lean
+
+GROUPS = [detect_slots, cyclepoints_slots, shape_slots, burstfeat_slots]
 
 def write_if_changed(path, text):
     try:
